@@ -49,7 +49,7 @@ theorem minMtime_attained (fs : List CacheFile) (h : fs ≠ []) : ∃ f ∈ fs, 
   | nil => exact absurd rfl h
   | cons a rest =>
     unfold minMtime
-    rcases foldl_min_attained (a :: rest) ((a :: rest).headD ⟨0, 0, 0, 0⟩).mtime with h1 | h1
+    rcases foldl_min_attained (a :: rest) ((a :: rest).headD ⟨0, 0, none, 0, 0⟩).mtime with h1 | h1
     · exact ⟨a, List.mem_cons_self, by rw [h1]; rfl⟩
     · exact h1
 
@@ -208,27 +208,61 @@ need every file to belong to a known table. -/
 def TablesKnown (s : St) : Prop := ∀ f ∈ s.files, f.table < nTables
 
 /-- every first use in the history is a kernel of a known table -/
-def OpsKnown (ops : List Op) : Prop := ∀ p t name, Op.firstUse p t name ∈ ops → t < nTables
+def OpsKnown (ops : List Op) : Prop := ∀ p t k sg, Op.firstUse p t k sg ∈ ops → t < nTables
+
+/-- the files after a first use: either a file that was already there, or a file of table `t` written now (the
+rewritten / new index file, or the new data file, which is only written on a cache miss and holds the version
+the process has in memory) -/
+theorem firstUse_files_mem (s : St) (p t k sg : Nat) (f : CacheFile)
+    (hf : f ∈ (step s (.firstUse p t k sg)).files) :
+    f ∈ s.files ∨
+      (f.table = t ∧ f.mtime = s.clock + 1 ∧
+        (f.isData = true →
+          s.files.any (fun f => f.table == t && f.kernel == k && f.sig == some sg) = false ∧
+          ∃ pr, s.procs[p]? = some pr ∧ f.builtFrom = (lookupLoaded pr t).getD (s.tableVersion t))) := by
+  simp only [step] at hf
+  split at hf
+  · exact Or.inl hf
+  · rename_i pr hpr
+    split at hf
+    · exact Or.inl hf
+    · rename_i hany
+      rcases List.mem_append.mp hf with h | h
+      · split at h
+        · obtain ⟨g, hg, hgf⟩ := List.mem_map.mp h
+          split at hgf
+          · rename_i hidx
+            subst hgf
+            simp only [Bool.and_eq_true, beq_iff_eq] at hidx
+            refine Or.inr ⟨hidx.1.1, rfl, ?_⟩
+            intro hd
+            simp [CacheFile.isData, hidx.2] at hd
+          · subst hgf
+            exact Or.inl hg
+        · rcases List.mem_append.mp h with h | h
+          · exact Or.inl h
+          · simp only [List.mem_singleton] at h
+            subst h
+            refine Or.inr ⟨rfl, rfl, ?_⟩
+            intro hd
+            simp [CacheFile.isData] at hd
+      · simp only [List.mem_singleton] at h
+        subst h
+        refine Or.inr ⟨rfl, rfl, fun _ => ⟨?_, pr, hpr, rfl⟩⟩
+        simpa using hany
 
 theorem step_files_mem (s : St) (op : Op) (f : CacheFile) (hf : f ∈ (step s op).files) :
-    f ∈ s.files ∨ ∃ p name, op = .firstUse p f.table name := by
+    f ∈ s.files ∨ ∃ p k sg, op = .firstUse p f.table k sg := by
   cases op with
   | touchTable t => exact Or.inl hf
   | spawn => exact Or.inl hf
   | load p t => exact Or.inl hf
   | importCheck crash => exact Or.inl (sweep_subset _ _ _ f hf)
   | forceClear => exact Or.inl (sweep_subset _ _ _ f hf)
-  | firstUse p t name =>
-    simp only [step] at hf
-    split at hf
-    · exact Or.inl hf
-    · split at hf
-      · exact Or.inl hf
-      · rcases List.mem_append.mp hf with h | h
-        · exact Or.inl h
-        · simp only [List.mem_singleton] at h
-          subst h
-          exact Or.inr ⟨p, name, rfl⟩
+  | firstUse p t k sg =>
+    rcases firstUse_files_mem s p t k sg f hf with h | ⟨h, _⟩
+    · exact Or.inl h
+    · exact Or.inr ⟨p, k, sg, by rw [h]⟩
 
 theorem tablesKnown_foldl (ops : List Op) (s : St) (hs : TablesKnown s) (h : OpsKnown ops) :
     TablesKnown (ops.foldl step s) := by
@@ -238,11 +272,11 @@ theorem tablesKnown_foldl (ops : List Op) (s : St) (hs : TablesKnown s) (h : Ops
     simp only [List.foldl_cons]
     apply ih
     · intro f hf
-      rcases step_files_mem s op f hf with h1 | ⟨p, name, h1⟩
+      rcases step_files_mem s op f hf with h1 | ⟨p, k, sg, h1⟩
       · exact hs f h1
-      · exact h p f.table name (h1 ▸ List.mem_cons_self)
-    · intro p t name hm
-      exact h p t name (List.mem_cons_of_mem _ hm)
+      · exact h p f.table k sg (h1 ▸ List.mem_cons_self)
+    · intro p t k sg hm
+      exact h p t k sg (List.mem_cons_of_mem _ hm)
 
 theorem tablesKnown_run (ops : List Op) (h : OpsKnown ops) : TablesKnown (run ops) :=
   tablesKnown_foldl ops init (fun _ hf => by cases hf) h
@@ -253,16 +287,17 @@ theorem tablesKnown_run (ops : List Op) (h : OpsKnown ops) : TablesKnown (run op
 the current table version -/
 def AtomicOp (s : St) (op : Op) : Prop :=
   match op with
-  | .firstUse p t name =>
-    (s.files.any (fun f => f.table == t && f.name == name)) ∨
+  | .firstUse p t k sg =>
+    (s.files.any (fun f => f.table == t && f.kernel == k && f.sig == some sg)) ∨
     (∀ pr, s.procs[p]? = some pr → ∀ v, lookupLoaded pr t = some v → v = s.tableVersion t)
   | _ => True
 
-/-- mtimes are clock values, and every stale cache file is older than its table -/
+/-- mtimes are clock values, and every stale data file is older than its table (index files carry no table values:
+their `builtFrom` is meaningless and their mtime is renewed on every compilation, so nothing is claimed about them) -/
 structure Inv (s : St) : Prop where
   fileClock : ∀ f ∈ s.files, f.mtime ≤ s.clock
   tableClock : ∀ t, s.tableMtime t ≤ s.clock
-  stale : ∀ f ∈ s.files, f.builtFrom ≠ s.tableVersion f.table → f.mtime < s.tableMtime f.table
+  stale : ∀ f ∈ s.files, f.isData = true → f.builtFrom ≠ s.tableVersion f.table → f.mtime < s.tableMtime f.table
 
 theorem inv_init : Inv init :=
   ⟨fun _ hf => (by cases hf), fun _ => Nat.le_refl _, fun _ hf => (by cases hf)⟩
@@ -279,6 +314,26 @@ theorem inv_procs (s : St) (procs : List Proc) (hi : Inv s) :
    fun t => Nat.le_succ_of_le (hi.tableClock t),
    fun f hf => hi.stale f hf⟩
 
+theorem step_firstUse_clock (s : St) (p t k sg : Nat) : (step s (.firstUse p t k sg)).clock = s.clock + 1 := by
+  simp only [step]
+  split
+  · rfl
+  · split <;> rfl
+
+theorem step_firstUse_tableMtime (s : St) (p t k sg : Nat) :
+    (step s (.firstUse p t k sg)).tableMtime = s.tableMtime := by
+  simp only [step]
+  split
+  · rfl
+  · split <;> rfl
+
+theorem step_firstUse_tableVersion (s : St) (p t k sg : Nat) :
+    (step s (.firstUse p t k sg)).tableVersion = s.tableVersion := by
+  simp only [step]
+  split
+  · rfl
+  · split <;> rfl
+
 theorem inv_step (s : St) (op : Op) (hi : Inv s) (ha : AtomicOp s op) : Inv (step s op) := by
   cases op with
   | spawn => exact inv_procs s _ hi
@@ -292,62 +347,59 @@ theorem inv_step (s : St) (op : Op) (hi : Inv s) (ha : AtomicOp s op) : Inv (ste
       split
       · exact Nat.le_refl _
       · exact Nat.le_succ_of_le (hi.tableClock x)
-    · intro f hf
+    · intro f hf hd
       show f.builtFrom ≠ (if f.table = t then s.tableVersion f.table + 1 else s.tableVersion f.table) →
         f.mtime < (if f.table = t then s.clock + 1 else s.tableMtime f.table)
       have hc := hi.fileClock f hf
       by_cases h : f.table = t
       · rw [if_pos h, if_pos h]; intro _; omega
-      · rw [if_neg h, if_neg h]; exact hi.stale f hf
-  | firstUse p t name =>
-    simp only [step]
-    split
-    · exact inv_procs s s.procs hi
-    · rename_i pr hpr
-      split
-      · exact inv_procs s _ hi
-      · rename_i hany
-        have hv : (lookupLoaded pr t).getD (s.tableVersion t) = s.tableVersion t := by
-          rcases ha with ha | ha
-          · exact absurd ha hany
-          · cases hl : lookupLoaded pr t with
-            | none => rfl
-            | some v => exact ha pr hpr v hl
-        refine ⟨?_, fun x => Nat.le_succ_of_le (hi.tableClock x), ?_⟩
-        · intro f hf
-          rcases List.mem_append.mp hf with h | h
-          · exact Nat.le_succ_of_le (hi.fileClock f h)
-          · simp only [List.mem_singleton] at h
-            subst h
-            exact Nat.le_refl _
-        · intro f hf
-          rcases List.mem_append.mp hf with h | h
-          · exact hi.stale f h
-          · simp only [List.mem_singleton] at h
-            subst h
-            intro hne
-            exact absurd hv hne
+      · rw [if_neg h, if_neg h]; exact hi.stale f hf hd
+  | firstUse p t k sg =>
+    refine ⟨?_, ?_, ?_⟩
+    · intro f hf
+      rw [step_firstUse_clock]
+      rcases firstUse_files_mem s p t k sg f hf with h | ⟨_, h, _⟩
+      · exact Nat.le_succ_of_le (hi.fileClock f h)
+      · exact Nat.le_of_eq h
+    · intro x
+      rw [step_firstUse_clock, step_firstUse_tableMtime]
+      exact Nat.le_succ_of_le (hi.tableClock x)
+    · intro f hf hd
+      rw [step_firstUse_tableMtime, step_firstUse_tableVersion]
+      rcases firstUse_files_mem s p t k sg f hf with h | ⟨ht, _, h⟩
+      · exact hi.stale f h hd
+      · obtain ⟨hany, pr, hpr, hb⟩ := h hd
+        intro hne
+        exfalso
+        apply hne
+        rw [hb, ht]
+        rcases ha with ha | ha
+        · rw [hany] at ha; cases ha
+        · cases hl : lookupLoaded pr t with
+          | none => rfl
+          | some v => exact ha pr hpr v hl
 
 /-! ### Counterexamples showing that the drafts without the known-table hypothesis are false -/
 
-/-- a state with a cache file of an unknown table (2) older than that table: the check does not look at it -/
+/-- a state with a cache (data) file of an unknown table (2) older than that table: the check does not look at it -/
 def cexState : St :=
-  { tableMtime := fun _ => 1, tableVersion := fun _ => 0, files := [⟨2, 0, 0, 0⟩], procs := [], clock := 1 }
+  { tableMtime := fun _ => 1, tableVersion := fun _ => 0, files := [⟨2, 0, some 0, 0, 0⟩], procs := [], clock := 1 }
 
 theorem complete_check_mtime_fresh_unrestricted_false :
     ¬ (∀ s : St, MtimeFresh (step s (.importCheck none))) := by
   intro h
-  have := h cexState ⟨2, 0, 0, 0⟩ (by decide)
+  have := h cexState ⟨2, 0, some 0, 0, 0⟩ (by decide)
   revert this
   decide
 
-/-- a history reaching such a state: a kernel of unknown table 2 is first-used, then table 2 is touched -/
-def cexOps : List Op := [.spawn, .firstUse 0 2 0, .touchTable 2]
+/-- a history reaching such a state: a kernel of unknown table 2 is first-used (index file and data file written at
+time 2), then table 2 is touched (time 3) -/
+def cexOps : List Op := [.spawn, .firstUse 0 2 0 0, .touchTable 2]
 
 theorem reachable_then_check_fresh_unrestricted_false :
     ¬ (∀ ops : List Op, MtimeFresh (step (run ops) (.importCheck none))) := by
   intro h
-  have := h cexOps ⟨2, 0, 2, 0⟩ (by decide)
+  have := h cexOps ⟨2, 0, some 0, 2, 0⟩ (by decide)
   revert this
   decide
 
